@@ -144,7 +144,7 @@ class Result:
 
 def prove(workdir, name, c_text, entry, enforce=None, replace=(), loop_contracts=True, solver="sat",
           unwind=None, unwindset=(), timeout=900, mem_gb=24, trace=False, object_bits=None, extra_defs=(),
-          no_checks=False, nondet_static=False, extra_checks=()):
+          no_checks=False, nondet_static=False, extra_checks=(), unwinding_assertions=True):
     """Run the pipeline on c_text. Returns Result. Raises Undecided on tool trouble."""
     os.makedirs(workdir, exist_ok=True)
     src = os.path.join(workdir, name + ".c")
@@ -194,7 +194,7 @@ def prove(workdir, name, c_text, entry, enforce=None, replace=(), loop_contracts
         cb += ["--sat-solver", "cadical"]
     res.backend = {"portfolio3": "portfolio (minisat2, cadical, cvc5 raced)", "portfolio": "SAT portfolio (minisat2 and cadical raced, first answer taken)", "sat": "SAT (minisat2, CBMC built-in)", "cvc5": "SMT2 (cvc5)", "z3": "SMT2 (z3)", "cadical": "SAT (cadical)"}[solver]
     if unwind is not None:
-        cb += ["--unwind", str(unwind), "--unwinding-assertions"]
+        cb += ["--unwind", str(unwind)] + (["--unwinding-assertions"] if unwinding_assertions else [])
     for u in unwindset:
         cb += ["--unwindset", u]
     if unwindset and unwind is None:
